@@ -119,6 +119,21 @@ def _pickle_check(x: typing.Any, what: str, detail: str) -> typing.Any:
     require(y == x and x == y, "pickle-not-equal:" + what, str(x), str(y), detail)
     require(hash(y) == hash(x), "pickle-hash:" + what, hash(x), hash(y), detail)
     require(str(y) == str(x) and repr(y) == repr(x), "pickle-str:" + what, repr(x), repr(y), detail)
+    # every public property keeps its value *and* its type
+    for name in sorted(dir(type(x))):
+        if name.startswith("_") or not isinstance(getattr(type(x), name, None), property) or name in ("string_like",):
+            continue
+        try:
+            vx = getattr(x, name)
+        except Exception:  # pylint: disable=broad-except
+            continue  # e.g. bit_length_set of a service type
+        vy, _ = guarded(lambda: getattr(y, name), what="pickle-attribute:" + name)
+        require(type(vy) is type(vx), "pickle-attribute-type:" + what, "%s: %s" % (name, type(vx).__name__), "%s: %s" % (name, type(vy).__name__), detail)
+        try:
+            same = vx == vy
+        except Exception:  # pylint: disable=broad-except
+            same = True
+        require(bool(same), "pickle-attribute-value:" + what, "%s = %r" % (name, vx), "%s = %r" % (name, vy), detail)
     return y
 
 
@@ -385,7 +400,7 @@ def parts(ctx: Ctx) -> typing.List[Part]:
     scalar = st.one_of(
         st.tuples(st.integers(-4, 4), st.integers(1, 4)).map(lambda t: ["rat", t[0], t[1]]),
         st.booleans().map(lambda b: ["bool", b]),
-        st.sampled_from(["", "a", "b", "é", "é"]).map(lambda s: ["str", s]),
+        st.sampled_from(["", "a", "b", "\u00e9", "e\u0301", "\u00c5", "A\u030a", "\u212b"]).map(lambda s: ["str", s]),
     )
     val = st.one_of(scalar, scalar, st.sampled_from(["rat", "str"]).flatmap(
         lambda k: st.lists(scalar.filter(lambda x: x[0] == k), min_size=1, max_size=3).map(lambda xs: ["set", xs])
